@@ -267,4 +267,4 @@ ASSUME = ['textbook DP Levenshtein as the reference distance',
 if __name__ == '__main__':
     tier = sys.argv[1] if len(sys.argv) > 1 else 'quick'
     sys.exit(run_check('C03', tier, layers(tier), assumptions=ASSUME,
-                       cap_s=240 if tier == 'quick' else 3000))
+                       cap_s=240 if tier == 'quick' else 6000))
